@@ -123,6 +123,27 @@ func TestC16_Dynamic(t *testing.T) {
 			a = gen.Message(gen.F(uint16(rapid.IntRange(0, 300).Draw(rt, "wraptag")), n))
 			break
 		}
+		// one case in eight carries a payload beyond the 16-bit offset range under a small tag that the
+		// reader's version does not know, next to a field the merging writer writes itself: whatever order
+		// the two are written in, the merged table needs the big form
+		bigTag, hasBig := uint16(0), false
+		if rapid.IntRange(0, 7).Draw(rt, "bigfield") == 0 {
+			bigTag = uint16(rapid.IntRange(0, 40).Draw(rt, "bigtag"))
+			free := true
+			for _, f := range a.Fields {
+				if f.Tag == bigTag || f.Tag == bigTag+1 {
+					free = false
+				}
+			}
+			if free {
+				big := make([]byte, 65000+rapid.IntRange(0, 6000).Draw(rt, "bigsize"))
+				for i := range big {
+					big[i] = byte(i * 7)
+				}
+				a.Fields = append(a.Fields, gen.Field{Tag: bigTag, V: gen.Bytes(big)})
+				hasBig = true
+			}
+		}
 		x := prog.NewExec(s)
 		raw, _, err, pan := safeBuild(x, a)
 		if err != nil || pan != "" {
@@ -173,6 +194,19 @@ func TestC16_Dynamic(t *testing.T) {
 				edits = append(edits, "reorder declarations (no wire effect)")
 			}
 		}
+		if hasBig {
+			// the reader's version drops the big field and adds its neighbour
+			if _, ok := view[bigTag]; ok {
+				delete(view, bigTag)
+				removes++
+				edits = append(edits, fmt.Sprintf("remove %d", bigTag))
+			}
+			if _, ok := view[bigTag+1]; !ok {
+				view[bigTag+1] = gen.KInt32
+				adds++
+				edits = append(edits, fmt.Sprintf("add %d int32", bigTag+1))
+			}
+		}
 		kase := c16case{Written: a.Render(300), Edits: edits}
 		// ---- read under A' ----
 		m, sz, perr := spec.ParseMessage(raw)
@@ -218,7 +252,7 @@ func TestC16_Dynamic(t *testing.T) {
 			if common {
 				p = 6 // overriding a common field is rarer
 			}
-			if rapid.IntRange(0, p).Draw(rt, "prewrite") == 0 {
+			if rapid.IntRange(0, p).Draw(rt, "prewrite") == 0 || (hasBig && tag == bigTag+1) {
 				k := view[tag]
 				var v *gen.Node
 				switch {
@@ -293,7 +327,7 @@ func TestC16_Dynamic(t *testing.T) {
 		nt := adds > 0 && removes > 0 && setRemoved
 		crossing := raw[len(raw)-1] != merged[len(merged)-1]
 		ev.Case(c16, ev.Hash(a.Fingerprint(), fmt.Sprint(edits), pre.Fingerprint()), nt,
-			fmt.Sprintf("adds>0=%v", adds > 0), fmt.Sprintf("removes>0=%v", removes > 0), fmt.Sprintf("table-form-crossing=%v", crossing), fmt.Sprintf("prewritten>0=%v", len(pre.Fields) > 0))
+			fmt.Sprintf("adds>0=%v", adds > 0), fmt.Sprintf("removes>0=%v", removes > 0), fmt.Sprintf("table-form-crossing=%v", crossing), fmt.Sprintf("prewritten>0=%v", len(pre.Fields) > 0), fmt.Sprintf("unknown-field>64KiB=%v", hasBig))
 		if ev.WantSample(c16) {
 			ev.Sample(c16, kase)
 		}
